@@ -612,10 +612,37 @@ Definition transfer (s : sys) : sys :=
     let b' := match e_out a with [] => b | bs => set_d b (feed (e_d b) bs) end in
     mkSys (set_out a' [] (e_log a')) (set_out b' [] (e_log b')) false.
 
+(* The dispatcher task does not yield while bytes and permits are available.  If it reaches a fatal
+   header in such a burst, Mux::run returns (and cancels every stream task) before any stream task has
+   seen the frames delivered earlier in the same burst.  [disp_burst] looks ahead for that case; it is
+   consulted against a raw peer only (two well-formed multiplexers never send a fatal header). *)
+Fixpoint disp_burst (fuel : nat) (e : endpoint) : option endpoint :=
+  match fuel with
+  | O => None
+  | S fuel' =>
+      match dstep (e_cfg e) (length (e_acc e)) (length (e_con e)) (e_d e) with
+      | DBlocked => None
+      | DProgress d => disp_burst fuel' (set_d e d)
+      | DDeliver d k i f => disp_burst fuel' (deliver (set_d e d) k i f)
+      | DFailed d code => Some (set_fail (set_d e d) (Some code))
+      end
+  end.
+Definition burst_fuel (e : endpoint) : nat :=
+  Z.to_nat (2 * (d_received (e_d e) - d_consumed (e_d e)) + 8).
+
+Definition raw_round (e : endpoint) : endpoint * bool :=
+  match e_fail e with
+  | Some _ => ep_round e
+  | None => match disp_burst (burst_fuel e) e with
+            | Some e' => (e', true)
+            | None => ep_round e
+            end
+  end.
+
 Definition settle_round (s : sys) : sys * bool :=
   let s1 := transfer s in
   let '(a, pa) := if s_raw s1 then (sA s1, false) else ep_round (sA s1) in
-  let '(b, pb) := ep_round (sB s1) in
+  let '(b, pb) := if s_raw s1 then raw_round (sB s1) else ep_round (sB s1) in
   let moved := match e_out a, e_out b with [], [] => false | _, _ => true end in
   (mkSys a b (s_raw s1), pa || pb || moved).
 
@@ -657,10 +684,18 @@ Definition status_of (s : sys) : list obsv :=
   (match e_fail (sA s) with Some c => if s_raw s then [] else [ozs [0; c]] | None => [] end) ++
   (match e_fail (sB s) with Some c => [ozs [1; c]] | None => [] end).
 
+Definition is_dead (s : sys) : bool :=
+  match e_fail (sA s), e_fail (sB s) with None, None => false | _, _ => true end.
+(* In the round in which Mux::run returns with an error its stream tasks are cancelled while they may be
+   about to react to frames delivered just before: whether a hand-over (and its OPEN frame) still
+   happens is decided by the runtime's randomised select, so that round reports reads and skips only. *)
+Definition keep_ev (ev : list Z) : bool := negb (nth 1 ev 0 =? 0).
+
 Definition observe (s : sys) : obsv :=
-  OL [ OL (map ozs (sort_events (e_events (sA s) ++ e_events (sB s))));
-       OL (map ozs (sort_frames (e_log (sA s))));
-       OL (map ozs (sort_frames (e_log (sB s))));
+  let evs := sort_events (e_events (sA s) ++ e_events (sB s)) in
+  OL [ OL (map ozs (if is_dead s then filter keep_ev evs else evs));
+       OL (map ozs (if is_dead s then [] else sort_frames (e_log (sA s))));
+       OL (map ozs (if is_dead s then [] else sort_frames (e_log (sB s))));
        OZ (if s_raw s then 0 else pulled (e_d (sA s)));
        OZ (pulled (e_d (sB s)));
        OL (status_of s) ].
